@@ -141,6 +141,11 @@ def gen_program(i):
             lines += [f'zrec{kk}.t = {lit(rng.choice(WORDS[:4]))}', f'PRINT zrec{kk}.n; zrec{kk}.t']
         if k % 6 == 4:
             lines += [f'gs{k % nshared}(1) = {k}', f'PRINT gs{k % nshared}(1)']
+        # compiler-generated labels: one loop and one block IF per program
+        if k == 0:
+            lines += ['FOR fi% = 1 TO 2', '  PRINT fi%', 'NEXT fi%']
+        if k == 1:
+            lines += ['IF gcount >= 0 THEN', f'  PRINT {lit(rng.choice(WORDS[:4]))}', 'ELSE', '  PRINT 0', 'END IF']
         if k + 1 < len(labels):
             lines.append(f'GOTO {labels[k + 1]}')
             uses.append(labels[k + 1])
